@@ -60,5 +60,6 @@ Emit == Done =>
     PrintT(<<"EMIT", ToJson([d |-> di, raw |-> input, pre |-> pre, post |-> post,
                              u1 |-> [st |-> m1.st, cur |-> m1.cur, err |-> m1.err, result |-> m1.result,
                                      open |-> OpenEnded(O1)],
+                             dev10b |-> (m2.st = "done" /\ BeforeStart(Len(pre), O2)),
                              u2 |-> [st |-> m2.st, cur |-> m2.cur, err |-> m2.err, result |-> m2.result]])>>)
 =============================================================================
